@@ -7,6 +7,7 @@ import (
 	"strconv"
 	"strings"
 
+	consensusSync "github.com/NethermindEth/juno/consensus/sync"
 	"github.com/NethermindEth/juno/consensus/tendermint"
 	"github.com/NethermindEth/juno/consensus/types"
 	"github.com/NethermindEth/juno/consensus/types/actions"
@@ -24,9 +25,24 @@ type (
 
 func (v Val) Hash() Hsh { return Hsh{uint64(v)} }
 
-func addr(i int) Adr { return Adr{uint64(i)} }
+// pseudoIdx is the index the harness (and the Lean driver: `pseudoSender`) uses for
+// consensus/sync.SyncProtocolPrecommitSender; addr(pseudoIdx) is that very address (the limbs of the
+// felt), so that code comparing with the constant sees it.
+const pseudoIdx = 1048576
+
+var pseudoAdr = Adr(consensusSync.SyncProtocolPrecommitSender)
+
+func addr(i int) Adr {
+	if i == pseudoIdx {
+		return pseudoAdr
+	}
+	return Adr{uint64(i)}
+}
 
 func addrIdx(a Adr) int {
+	if a == pseudoAdr {
+		return pseudoIdx
+	}
 	if a[1] != 0 || a[2] != 0 || a[3] != 0 || a[0] > 1<<30 {
 		return 1 << 30
 	}
@@ -46,6 +62,9 @@ type Cfg struct {
 	// validator set of the odd heights, when not empty (sets that change from height to height)
 	AltPowers []uint64 `json:"alt_powers,omitempty"`
 	AltTotal  uint64   `json:"alt_total,omitempty"`
+	// Shipped: the shape of the only Validators implementation in /repo (consensus/mock.go):
+	// power 1 for EVERY address (member or not), power Total for the sync pseudo-sender.
+	Shipped bool `json:"shipped,omitempty"`
 }
 
 func (c *Cfg) useAlt(h uint64) bool { return len(c.AltPowers) > 0 && h%2 == 1 }
@@ -62,6 +81,12 @@ func (c *Cfg) TotalVotingPower(h types.Height) types.VotingPower {
 }
 
 func (c *Cfg) power(h uint64, i int) uint64 {
+	if c.Shipped {
+		if i == pseudoIdx {
+			return c.Total
+		}
+		return 1
+	}
 	ps := c.Powers
 	if c.useAlt(h) {
 		ps = c.AltPowers
@@ -147,8 +172,12 @@ func joinI(xs []int) string {
 }
 
 func newLine(mid int, cfg *Cfg, ns NodeSpec) string {
-	return fmt.Sprintf("new %d %d %d %d %d %d %d %d %d %d %s %s %d %s", mid, ns.Node, ns.Height, cfg.Total, cfg.Rot,
-		cfg.VMod, cfg.VRem, ns.VBase, ns.VStep, cfg.PMul, joinU(cfg.Powers), joinI(cfg.Tbl), cfg.AltTotal, joinU(cfg.AltPowers))
+	shipped := 0
+	if cfg.Shipped {
+		shipped = 1
+	}
+	return fmt.Sprintf("new %d %d %d %d %d %d %d %d %d %d %s %s %d %s %d", mid, ns.Node, ns.Height, cfg.Total, cfg.Rot,
+		cfg.VMod, cfg.VRem, ns.VBase, ns.VStep, cfg.PMul, joinU(cfg.Powers), joinI(cfg.Tbl), cfg.AltTotal, joinU(cfg.AltPowers), shipped)
 }
 
 // ---- inputs -------------------------------------------------------------------------------
